@@ -127,7 +127,7 @@ class Concretiser:
             return h.valid(cls)
         return h.body(minlen=2)
 
-    def build(self, key, preamble: Optional[bool] = None, free_extra: int = 0):
+    def build(self, key, preamble: Optional[bool] = None):
         """abstract schedule -> scenario dict (JSON-able)."""
         kind, aframes, stim, choices = key
         choices = dict(choices)
@@ -323,6 +323,7 @@ class Runner:
 
     def run(self, sc) -> list:
         events: list = []
+        self._events = events
         old = signal.signal(signal.SIGALRM, self._alarm)
         signal.setitimer(signal.ITIMER_REAL, 30)
         self._st = None
@@ -340,17 +341,7 @@ class Runner:
             try:
                 vloop.run(lambda lp: self._main(lp, sc, events))
             except Hang:
-                if self._st is not None and self._st.get('in_tick'):
-                    # virtual time cannot advance while some task of the client spins on zero-delay
-                    # sleeps (seen: WishlistInterval(interval=0)); a limit of the virtual loop, not a
-                    # reader that hangs.  The trace ends before the tick.
-                    self.stats['time_stuck_in_tick'] = self.stats.get('time_stuck_in_tick', 0) + 1
-                    while events and events[-1]['ev'] != 'tick':
-                        events.pop()
-                    if events:
-                        events.pop()
-                else:
-                    events.append(dict(ev='hang'))
+                pass                      # already recorded by _alarm
         finally:
             signal.setitimer(signal.ITIMER_REAL, 0)
             signal.signal(signal.SIGALRM, old)
@@ -361,8 +352,23 @@ class Runner:
         return events
 
     def _alarm(self, signum, frame):
-        if self._st is not None:
-            self._st['recording'] = False
+        """30 s of wall time in one scenario (they take milliseconds).  The exception aborts whatever
+        callback is running; asyncio stores it in that task and the loop goes on, so the verdict is
+        recorded here."""
+        st, events = self._st, self._events
+        if st is not None and st.get('in_tick'):
+            # virtual time cannot advance while some task of the client spins on zero-delay sleeps
+            # (seen: WishlistInterval(interval=0)); a limit of the virtual loop, not a reader that
+            # hangs.  The trace ends before the tick.
+            self.stats['time_stuck_in_tick'] = self.stats.get('time_stuck_in_tick', 0) + 1
+            while events and events[-1]['ev'] != 'tick':
+                events.pop()
+            if events:
+                events.pop()
+        elif st is None or st.get('recording'):
+            events.append(dict(ev='hang'))
+        if st is not None:
+            st['recording'] = False
         raise Hang()
 
     async def _main(self, loop, sc, events):
@@ -571,12 +577,16 @@ class Runner:
                 for ctx in new:
                     t = ctx.get('task') or ctx.get('future')
                     if t is not None and (id(t) in tasks_watched or t is accept_task):
-                        events.append(dict(ev='unhandled', what=str(ctx.get('message'))[:120]))
+                        log(ev='unhandled', what=str(ctx.get('message'))[:120])
                     else:
                         self.stats['unhandled_elsewhere'] += 1
                         if len(self.stats['unhandled_examples']) < 5:
                             self.stats['unhandled_examples'].append(
                                 f"{ctx.get('message')} / {ctx.get('exception')!r}"[:300])
+
+            def log(**e):
+                if st['recording']:
+                    events.append(e)
 
             async def quiet():
                 for _ in range(400):
@@ -590,12 +600,12 @@ class Runner:
                         st['spinning'] = True
                         self.stats['spinning_scenarios'] = self.stats.get('spinning_scenarios', 0) + 1
                 unhandled_check()
-                events.append(dict(ev='quiet'))
+                log(ev='quiet')
 
             async def tick(dt):
-                if st['spinning']:
+                if st['spinning'] or not st['recording']:
                     return
-                events.append(dict(ev='tick'))
+                log(ev='tick')
                 st['in_tick'] = True
                 await asyncio.sleep(dt)
                 st['in_tick'] = False
@@ -612,13 +622,13 @@ class Runner:
                     pos += len(chunk)
                     if not chunk:
                         continue
-                    events.append(dict(ev='feed', n=len(chunk)))
+                    log(ev='feed', n=len(chunk))
                     feeder.write(chunk)
                 elif s[0] == 'eof':
                     if eof:
                         continue
                     eof = True
-                    events.append(dict(ev='eof'))
+                    log(ev='eof')
                     if len(s) > 1 and s[1] == 'reset':
                         feeder.link.cut('reset')         # connection reset instead of an orderly close
                     else:
@@ -626,7 +636,7 @@ class Runner:
                 elif s[0] == 'tick':
                     await tick(float(getattr(conn, 'read_timeout', 60) or 60) + 1)
                 elif s[0] == 'lclose':
-                    events.append(dict(ev='lclose'))
+                    log(ev='lclose')
                     await conn.disconnect(CloseReason.REQUESTED)
                 await quiet()
             # a handler may be waiting for something: give it (virtual) time, visibly
@@ -679,12 +689,6 @@ def diagnose(trace) -> dict:
     return info
 
 
-def _context(trace, at):
-    """(kind, category and class of the frame the reader was at) for fingerprints."""
-    kind = trace[0].get('kind', '?') if trace else '?'
-    return kind
-
-
 def make_fingerprint(scenarios):
     def fp(tid, info, trace):
         sc = scenarios[tid - 1]
@@ -713,7 +717,16 @@ def make_fingerprint(scenarios):
             return f"C02:frame-not-delivered-or-connection-not-closed:{kind}"
         if name == 'msg':
             return f"C02:unexpected-delivery:{kind}:{ev.get('cls')}"
-        if name in ('hang', 'unhandled', 'accept_raised'):
+        if name == 'hang':
+            # name the last hostile frame that had been fed completely
+            fed = sum(e.get('n', 0) for e in trace[:int(at or 0)] if e.get('ev') == 'feed')
+            acc, last = 0, None
+            for f in sc['frames']:
+                acc += f['h'] + f['a']
+                if acc <= fed and f['a'] == f['b'] and f['k'] == 'H':
+                    last = f
+            return f"C02:does-not-terminate:{kind}:{(last or {}).get('cat', '-')}:{(last or {}).get('cls', '-') or '-'}"
+        if name in ('unhandled', 'accept_raised'):
             return f"C02:{name}:{kind}:{ev.get('how') or ev.get('what') or ''}"
         if name == 'ostate':
             return f"C02:other-connection-affected:{kind}:{ev.get('which')}"
@@ -735,7 +748,7 @@ def collect(chk: Check, thorough: bool):
     n_sim = len(keys)
     n_cover = 0
     if thorough:
-        g, res = tlc.dump_graph(SPEC, 'MC_cover.cfg', parse_states='init', timeout=1500)
+        g, res = tlc.dump_graph(SPEC, 'MC_quick.cfg', parse_states='init', timeout=1500)
         if not res.ok:
             raise MachineryFailure(f'graph dump failed: {[(i.kind, i.name) for i in res.issues]}')
         paths = tlc.path_cover(g)
@@ -787,8 +800,8 @@ def run(chk: Check, args):
     keys = collect(chk, thorough)
     order = sorted(keys)
     chk.rng.shuffle(order)
-    n_model = 8000 if thorough else 1100
-    n_free = 5000 if thorough else 450
+    n_model = 10000 if thorough else 1100
+    n_free = 7000 if thorough else 450
     # mostly schedules that get a whole frame to the reader, but also the ones that do not (EOF, silence
     # or a local close in the middle of the very first frame - the only frame of the accept phase)
     rich = [k for k in order if interesting(k)]
@@ -814,7 +827,7 @@ def run(chk: Check, args):
                 scenarios.append(sc)
                 metas.append(dict(source='every-class', cls=cls.__qualname__))
     for fam in ('server', 'peer', 'dist'):
-        for i in range(40 if thorough else 6):
+        for i in range(60 if thorough else 6):
             scenarios.append(session_scenario(conc, fam, 60 if fam == 'server' else 24, preamble=i % 2 == 0))
             metas.append(dict(source='session'))
     chk.log(f'{len(scenarios)} scenarios built; hostile categories: {dict(sorted(conc.cat_counts.items()))}')
@@ -830,6 +843,7 @@ def run(chk: Check, args):
     cwd = os.getcwd()
     try:
         os.chdir(tmp)
+        hangs = 0
         for i, sc in enumerate(scenarios):
             ev = runner.run(sc)
             traces.append(ev)
@@ -839,9 +853,15 @@ def run(chk: Check, args):
                       nontrivial=whole)
             if i and i % 500 == 0:
                 chk.log(f'  {i} scenarios run')
+            if any(e['ev'] == 'hang' for e in ev[-3:]):
+                hangs += 1
+                if hangs >= 3:
+                    chk.log(f'  three scenarios hung (30 s wall each): not running the remaining {len(scenarios) - i - 1}')
+                    break
     finally:
         os.chdir(cwd)
         shutil.rmtree(tmp, ignore_errors=True)
+    scenarios, metas = scenarios[:len(traces)], metas[:len(traces)]
     chk.log(f'ran {len(traces)} scenarios on the real client; delivered classes: {len(runner.stats["msg_classes"])}')
     chk.cov['hostile_categories'] = dict(sorted(conc.cat_counts.items()))
     chk.cov['delivered_message_classes'] = len(runner.stats['msg_classes'])
@@ -966,18 +986,32 @@ def selftest(chk: Check, traces):
             if n >= limit:
                 break
 
-    # a delivered sentinel is lost
-    pick(lambda tr, i, e: e['ev'] == 'msg' and e['sid'], lambda b, i: b.pop(i))
+    def has_hdone(tr, i):
+        return i + 1 < len(tr) and tr[i + 1]['ev'] == 'hdone'
+
+    # a delivered sentinel is lost (the event and the end of its handling)
+    def lose(b, i):
+        del b[i:i + 2]
+    pick(lambda tr, i, e: e['ev'] == 'msg' and e['sid'] and has_hdone(tr, i), lose)
+
     # ... delivered twice
-    pick(lambda tr, i, e: e['ev'] == 'msg' and e['sid'], lambda b, i: b.insert(i, dict(b[i])))
+    def dup(b, i):
+        b[i:i] = [dict(b[i]), dict(ev='hdone')]
+    pick(lambda tr, i, e: e['ev'] == 'msg' and e['sid'] and has_hdone(tr, i), dup)
+
     # two sentinels swapped
     def swap(b, i):
         j = next((j for j in range(i + 1, len(b)) if b[j]['ev'] == 'msg' and b[j]['sid']), None)
         if j is None:
             return False
-        b[i], b[j] = b[j], b[i]
+        b[i]['sid'], b[j]['sid'] = b[j]['sid'], b[i]['sid']
     pick(lambda tr, i, e: e['ev'] == 'msg' and e['sid'] and
          any(x['ev'] == 'msg' and x['sid'] for x in tr[i + 1:]), swap)
+    # a message decoded from a hostile body is delivered twice
+    def dup_h(b, i):
+        b[i:i] = [dict(b[i]), dict(ev='hdone')]
+    pick(lambda tr, i, e: e['ev'] == 'msg' and not e['sid'] and has_hdone(tr, i) and
+         sum(1 for f in tr[0]['frames'] if f['k'] == 'H') == 1, dup_h)      # (one H frame: no other slot to blame)
     # the reader ends although nothing closed the connection
     def kill(b, i):
         if any(e['ev'] in ('state', 'peer_init', 'eof', 'lclose') for e in b):
